@@ -13,10 +13,10 @@ SPECIAL = 'a+b/c=d@e.f_g-h'
 
 ALPHA = {
     'kex': ['curve25519-sha256', 'diffie-hellman-group14-sha256', 'frob-kex@example.org', LONG, NONUTF8, SPECIAL,
-            'gss-gex-sha1-dZuIebMjgUqaxvbF7hDbAw==', 'gss-group14-sha256-a+b/c0==', 'gss-'],
-    'key': ['ssh-ed25519', 'rsa-sha2-512', 'frob-key@example.org', LONG, NONUTF8, SPECIAL],
-    'enc': ['aes256-ctr', 'chacha20-poly1305@openssh.com', 'frob-enc@example.org', LONG, NONUTF8, SPECIAL],
-    'mac': ['hmac-sha2-256', 'hmac-sha1-etm@openssh.com', 'frob-mac@example.org', LONG, NONUTF8, SPECIAL],
+            'gss-gex-sha1-dZuIebMjgUqaxvbF7hDbAw==', 'gss-group14-sha256-a+b/c0==', 'gss-', ''],
+    'key': ['ssh-ed25519', 'rsa-sha2-512', 'frob-key@example.org', LONG, NONUTF8, SPECIAL, ''],
+    'enc': ['aes256-ctr', 'chacha20-poly1305@openssh.com', 'frob-enc@example.org', LONG, NONUTF8, SPECIAL, ''],
+    'mac': ['hmac-sha2-256', 'hmac-sha1-etm@openssh.com', 'frob-mac@example.org', LONG, NONUTF8, SPECIAL, ''],
 }
 BASE = {'kex': ['sntrup761x25519-sha512@openssh.com', 'ext-info-s'], 'key': ['ssh-ed25519', 'ssh-frob@example.org'],
         'enc': ['aes128-ctr', 'aes128-gcm@openssh.com'], 'mac': ['hmac-sha2-512', 'umac-128-etm@openssh.com']}
